@@ -8,7 +8,7 @@ C07.seed (PlannerConfig.seed -> seed_from_u64 -> rng field, unmodified).
 import re
 
 from ..core import (RuleResult, Violation, SAMPLE_UNIFORM, SAMPLE_GOAL, user_call)
-from ..engine import walk, fmt_terms, strip_clone
+from ..engine import walk, fmt_terms, strip_clone, T as T
 from ..retval import Leaves
 
 META = {
@@ -66,6 +66,20 @@ def is_planner_rng(ts, field='rng'):
         if k in ('unwrap', 'clone') and is_planner_rng(n[1], field):
             continue
         if k == 'call' and n[1].startswith('std::option::Option::<T>::') and n[2] and is_planner_rng(n[2][0], field):
+            continue
+        return False
+    return True
+
+
+def _gen_or_fallback(ts, rf, fn, fb_blocks):
+    """`match self.rng.take() { Some(g) => g, None => Box::new(StdRng::from_os_rng()) }`: every alternative is the planner's own
+    generator or an OS generator created in a block that only runs when the field was None"""
+    if not ts or not any(is_planner_rng(T(n), rf) for n in ts):
+        return False
+    for n in ts:
+        if is_planner_rng(T(n), rf):
+            continue
+        if n[0] == 'call' and n[1] in ({'rand::rng', 'rand::thread_rng'} | FALLBACK_OK) and n[3][0] == fn.path and n[3][1] in fb_blocks:
             continue
         return False
     return True
@@ -235,7 +249,8 @@ def run(ctx, tier):
                 ok = (rf is not None and is_planner_rng(terms, rf)) or \
                      (b.path not in entry_paths and param_derived(terms) and b.kind != 'Closure') or \
                      (bi in fallback_blocks(b) and all(
-                         n[0] == 'call' and n[1] in ({'rand::rng', 'rand::thread_rng'} | FALLBACK_OK) for n in terms))
+                         n[0] == 'call' and n[1] in ({'rand::rng', 'rand::thread_rng'} | FALLBACK_OK) for n in terms)) or \
+                     (rf is not None and _gen_or_fallback(terms, rf, fn, fallback_blocks(b)))
                 what = 'planner generator'
             else:
                 ok = param_derived(terms)
@@ -340,7 +355,8 @@ def run(ctx, tier):
                         good_store_blocks.add(sb)
                         continue
                     val = fn.rvalue_terms(st['rv'], (sb, si), mut_kills=False)
-                    if val and all(n[0] == 'agg' and n[2] == 'Some' and is_planner_rng(n[3][0][1], rf) for n in val):
+                    if val and all(n[0] == 'agg' and n[2] == 'Some' and (is_planner_rng(n[3][0][1], rf) or
+                                                                       _gen_or_fallback(n[3][0][1], rf, fn, fallback_blocks(b))) for n in val):
                         good_store_blocks.add(sb)
                 after = fn.reachable(tb)
                 bad_exits = []
